@@ -7,6 +7,11 @@ from .. import coqrun as cq
 from .. import gen
 from .c06 import systems
 
+def _nn(v):
+    """NaN counts as 'exceeds every bound' in the oracle comparisons"""
+    return np.inf if np.isnan(v) else v
+
+
 TECHNIQUE = 'Coq/mathcomp proof of CG invariants + optimality and of exact line search; exact-Q recurrences vs implementation; dense Krylov-space minimiser oracle'
 LEVEL_TEXT = ('Kernel-checked theorems (Props/C07.v, mathcomp, any real field): for the CG recurrences as written in '
               'pyamg/krylov/_cg.py (no breakdown before step k) the recursive residual is the true residual, residuals are '
@@ -195,7 +200,7 @@ def run(ctx):
                     # an n-by-n system is solved in at most n steps (to rounding)
                     if name != 'bicgstab' and name not in ('steepest_descent', 'minimal_residual'):
                         kappa = np.linalg.cond(A) ** (2 if name in ('cgnr', 'cgne') else 1)
-                        if np.linalg.norm(xs - xk) > 1e-5 * np.linalg.cond(A) * (1 + np.linalg.norm(xs)):
+                        if _nn(np.linalg.norm(xs - xk)) > 1e-5 * np.linalg.cond(A) * (1 + np.linalg.norm(xs)):
                             ctx.fail(name + '/not-solved-in-n-steps', '|x_n - x*| = %.3g' % np.linalg.norm(xs - xk), case)
     ctx.corr_relations = ['pyamg.krylov.{cg, steepest_descent, minimal_residual} iterates == KrylovRec recurrences over Q (1e-8)',
                           'pyamg.krylov.cgnr iterates == KrylovRec.cg on the normal equations (1e-7)']
